@@ -19,7 +19,7 @@ ASSUMPTIONS = ["autowrite/writeany off (as the statement says)", ":b ! (delete b
                "the text is observed (%w! to a scratch file), never predicted; files are not changed from outside during the history (C03 covers that)",
                "text equal to the saved text by coincidence (different undo position) may be reported either way"]
 
-FILES = ["f0", "f1", "f2", "f3", "f4", "f5", "f6", "f7"]
+FILES = ["f%d" % i for i in range(16)]
 
 
 def prepare(build, tier):
@@ -70,7 +70,12 @@ def case(draw):
             steps.append(["sw", "b " + draw(st.sampled_from(["1", "2", "3", "+", "-", "#", "%", "^"]))])
         else:
             steps.append(["swf", "b! " + draw(st.sampled_from(["1", "2", "+", "-", "#"]))])
-    return {"files": files, "first": draw(st.sampled_from(FILES[:nf])), "steps": steps, "quit": draw(st.sampled_from(["q", "q", "x", "wq"]))}
+    first = draw(st.sampled_from(FILES[:nf]))
+    if draw(st.integers(0, 7)) == 0:
+        # all 16 buffer slots in use, the modified buffer being the least recently used one
+        first = "f0"
+        steps = [["mod", "$a\ntfull\n."]] + [["swf", "e! f%d" % i] for i in range(1, 16)] + steps[:draw(st.integers(0, 6))]
+    return {"files": files, "first": first, "steps": steps, "quit": draw(st.sampled_from(["q", "q", "x", "wq"]))}
 
 
 def strategy(tier):
